@@ -95,7 +95,7 @@ def staged_tours(g, stages, maxlen=40, budget=None, seed=0):
             for i, (lab, v) in enumerate(es):
                 if (u, i) in done:
                     continue
-                if pred(lab, g.label.get(v, '')):
+                if ((u, i) in pred) if isinstance(pred, (set, frozenset)) else pred(lab, g.label.get(v, '')):
                     idx.append(i)
                     done.add((u, i))
             rnd.shuffle(idx)
@@ -173,3 +173,19 @@ def _cover(g, cache, unc, maxlen, budget, rnd):
         result.append(tour)
         steps += len(tour)
     return result, covered
+
+
+def bfs_tree_edges(g):
+    """one incoming edge per reachable state (a spanning tree from the initial states):
+    covering these edges visits every state of the model"""
+    seen = set(g.init)
+    q = collections.deque(g.init)
+    edges = set()
+    while q:
+        u = q.popleft()
+        for i, (lab, v) in enumerate(g.out.get(u, ())):
+            if v not in seen:
+                seen.add(v)
+                edges.add((u, i))
+                q.append(v)
+    return edges
